@@ -69,6 +69,10 @@ func (ex *Exec) callFn(fr *Frame, st *State, pc *Term, fn *ssa.Function, args []
 		return ex.specForall(fr, st, pc, args[0]), pc
 	case "verif_forall_range":
 		return ex.specForallRange(fr, st, pc, args[0].(VBV).T, args[1].(VBV).T, args[2]), pc
+	case "verif_disjoint":
+		// the element windows of two slices do not overlap
+		a, b := args[0].(VSlice), args[1].(VSlice)
+		return VBool{Or(Not(Eq(a.Arr, b.Arr)), SLe(Add(a.Off, a.Len), b.Off), SLe(Add(b.Off, b.Len), a.Off))}, pc
 	case "verif_exists":
 		return VBool{Not(ex.specForall(fr, st, pc, negClosure{args[0]}).(VBool).T)}, pc
 	}
